@@ -67,6 +67,7 @@ type c17Layout struct {
 	Max       uint     `json:"max_cert_size"`
 	Type      uint8    `json:"cert_type"`
 	Retry     bool     `json:"retry"`
+	LastTo    uint64   `json:"failed_cert_to_block,omitempty"`
 }
 
 func c17Build(l c17Layout) ([]bridgesync.Bridge, []bridgesync.Claim) {
@@ -239,6 +240,10 @@ func TestC17(t *testing.T) {
 			}
 			l.Max = uint(maxBlk)
 			l.Retry = g.Intn(4) == 0
+			l.LastTo = l.To
+			if g.Intn(2) == 0 {
+				l.LastTo = from + uint64(g.Intn(int(span)+2))
+			}
 			allowResize := g.Intn(2) == 0
 			requireBridge := g.Intn(2) == 0
 			if !r.Only(caseID) {
@@ -249,7 +254,9 @@ func TestC17(t *testing.T) {
 				full := &aggsendertypes.CertificateBuildParams{FromBlock: l.From, ToBlock: l.To, Bridges: bs, Claims: cs, CertificateType: 1}
 				if l.Retry {
 					full.RetryCount = 1
-					full.LastSentCertificate = &aggsendertypes.CertificateHeader{FromBlock: l.From, ToBlock: l.To}
+					// the failed certificate a retry replaces started at the same block; where it ended
+					// (before, at or beyond the new limit) must not influence the cut
+					full.LastSentCertificate = &aggsendertypes.CertificateHeader{FromBlock: l.From, ToBlock: l.LastTo}
 				}
 				lim := flows.NewMaxL2BlockNumberLimiter(maxBlk, lg, allowResize, requireBridge)
 				res, err := lim.AdaptCertificate(full)
@@ -279,7 +286,11 @@ func TestC17(t *testing.T) {
 					r.Violation("C17:lastblock:to-not-largest-permitted", caseID, fmt.Sprintf("to=%d want %d", res.ToBlock, wantTo), sc)
 				}
 				c17CheckEvents(r, "lastblock", caseID, sc, bs, cs, res)
-				r.Eval(fmt.Sprintf("lim/cut=%v/retry=%v/ev=%d", wantTo < l.To, l.Retry, min(nb+nc, 3)))
+				lastVsMax := 9
+				if l.Retry {
+					lastVsMax = cmpU(l.LastTo, maxBlk)
+				}
+				r.Eval(fmt.Sprintf("lim/cut=%v/retry=%v/failed-cert-end-vs-max=%d/ev=%d", wantTo < l.To, l.Retry, lastVsMax, min(nb+nc, 3)))
 			})
 			// Range() on an arbitrary sub-range
 			guard(r, caseID, sc, func() {
